@@ -269,13 +269,11 @@ def carried_cases(rng, sources, n_each):
         d = copy.deepcopy(cg.strip_notes(doc))
         kinds = []
         d["preceding"] = []
-        # reported: bill.calculateOrgDocumentRefs overwrites its currency parameter, so a reference WITHOUT a currency that follows
-        # one WITH a currency is calculated in the earlier reference's currency instead of the document's (EUR order, preceding[0]
-        # currency JPY, preceding[1] none, base "10.50" at 21% -> preceding[1].tax base "11", amount "2"). Once a reference states
-        # its currency, every later one of the same document states one too.
-        stated = False
+        # (repaired in /repo f35e6b8: a reference WITHOUT a currency that followed one WITH a currency was calculated in the earlier
+        # reference's currency - EUR order, preceding[0] currency JPY, preceding[1] none, base "10.50" at 21% -> base "11", amount "2";
+        # references now state their own currency independently of one another, so that case is generated on every run)
         for i in range(rng.choice([1, 1, 2, 3])):
-            stated = stated or rng.random() < 0.2
+            stated = rng.random() < 0.3
             r, kind = ref(i, doc, stated)
             if i == 0 and not stated and rng.random() < 0.5:
                 r["tax"], kind = copy.deepcopy(out["totals"]["taxes"]), "own"
